@@ -408,7 +408,7 @@ def jobs(tier, seed):
                     yield {"kind": "fixed_pairs", "name": name, "shape": shape, "victim": victim,
                            "stride": 4, "part": part, "wide": tier == "thorough"}
     if tier == "quick":
-        for i in range(0, 1600, 25):
+        for i in range(0, 2400, 25):
             yield {"kind": "seeded", "seed": seed, "index": i, "count": 25, "opcode_every": 8}
     else:
         i = 0
